@@ -122,6 +122,7 @@ def run(tier):
     rule_R2(res, prog, cg, c, tr, eng)
     rule_R4(res, prog, cg, c)
     rule_R5(res, prog, cg, c, tr, eng)
+    rule_R6(res, prog)
     return res.finish()
 
 
@@ -366,3 +367,93 @@ def rule_R5(res, prog, cg, c, tr, eng):
             res.instance("C01.R5", "%s calls a sealing primitive at line %s (%d valuations)" % (
                 fn.name, node.get("ln"), cnt), bad is None, nontrivial=cnt > 0, finding=f)
     res.floor("C01.R5", 2)
+
+
+def rule_R6(res, prog):
+    """Early data (the one kind of application data delivered before the handshake completes) is bounded by what THIS
+    session enabled: in matrixSslDecodeTls13 the limit compared with ssl->tls13ReceivedEarlyDataLen is, on every reaching
+    definition, ssl->tls13SessionMaxEarlyData itself or the minimum of it and another value.  A limit taken from the
+    ticket alone lets a server session that never enabled early data (default 0) hand replayable 0-RTT records to the
+    application."""
+    from sa import cfgutil as cu
+    from sa.pp import pp
+    rid = "C01.R6"
+    res.rule(rid, "the early-data limit enforced before delivery never exceeds the session's own tls13SessionMaxEarlyData")
+    fn = prog.fn("matrixSslDecodeTls13")
+    rd = cu.reaching_defs(fn)
+    n = 0
+
+    def bounded(e, bid, idx, depth=0):
+        e = strip(e)
+        while e is not None and e.get("k") == "cast":
+            e = strip(e["e"])
+        if e is None or depth > 3:
+            return False
+        if e.get("k") == "mem":
+            return e.get("f") == "tls13SessionMaxEarlyData"
+        if e.get("k") == "cond":
+            c_ = strip(e.get("c"))
+            a_, b_ = e.get("a"), e.get("b")
+            if c_ is None or c_.get("k") != "bin" or c_["op"] not in ("<", "<=", ">", ">="):
+                return False
+            la, lb = cu.ftext(strip(c_["l"])), cu.ftext(strip(c_["r"]))
+            ta, tb = cu.ftext(strip(a_)), cu.ftext(strip(b_))
+            if {la, lb} != {ta, tb}:
+                return False
+            small_first = c_["op"] in ("<", "<=")
+            picks_small = (ta == la) if small_first else (ta == lb)
+            return picks_small and (bounded(a_, bid, idx, depth + 1) or bounded(b_, bid, idx, depth + 1))
+        if e.get("k") == "var" and "id" in e:
+            ds = cu.defs_at(fn, rd, bid, idx, e["id"])
+            return bool(ds) and all(d[2] in ("decl", "assign") and d[3] is not None and bounded(d[3], d[0], d[1], depth + 1) for d in ds)
+        return False
+    for b in fn.blocks:
+        t = b.get("term")
+        if t is None or "c" not in t:
+            continue
+        for nd in walk(t["c"]):
+            if nd.get("k") == "bin" and nd["op"] in (">", ">=", "<", "<="):
+                l_, r_ = strip(nd["l"]), strip(nd["r"])
+                for cnt, lim in ((l_, r_), (r_, l_)):
+                    if cnt is not None and cnt.get("k") == "mem" and cnt.get("f") == "tls13ReceivedEarlyDataLen" and lim is not None:
+                        if lim.get("k") == "mem" and lim.get("f") == "tls13SessionMaxEarlyData":
+                            ok = True
+                        else:
+                            ok = bounded(lim, b["id"], "c")
+                        n += 1
+                        f_ = None
+                        if not ok:
+                            f_ = Finding(PROP, rid, fn.name, "early-data limit not bounded by the session setting",
+                                         "%s:%s matrixSslDecodeTls13(): ssl->tls13ReceivedEarlyDataLen is compared with `%s`, and a definition "
+                                         "of it reaching this test is not ssl->tls13SessionMaxEarlyData or a minimum with it: a session that did "
+                                         "not enable early data delivers 0-RTT application data before the handshake completes" % (
+                                             fn.relfile, t["ln"], pp(lim)[:40]), file=fn.relfile, line=t["ln"])
+                        res.instance(rid, "matrixSslDecodeTls13:%s tls13ReceivedEarlyDataLen vs %s" % (t["ln"], pp(lim)[:30]), ok, finding=f_)
+    # the limit test is on every path from `hsState == WAIT_EOED` to the delivery of application data
+    EOED = prog.const("SSL_HS_TLS_1_3_WAIT_EOED")
+    PD = prog.const("SSL_PROCESS_DATA")
+    nm = 0
+    for b in fn.blocks:
+        t = b.get("term")
+        if t is None or "c" not in t or len(b["succ"]) != 2:
+            continue
+        if not any(txt == "(ssl->hsState == %d)" % EOED for (txt, tr, nd) in cu._cond_atoms(t["c"], True) if tr):
+            continue
+        s0 = b["succ"][0].get("b")
+        if s0 is None:
+            continue
+        nm += 1
+        esc = cu.escapes(fn, (s0, None),
+                         lambda x: any(m.get("k") == "mem" and m.get("f") == "tls13ReceivedEarlyDataLen" for m in walk(x)) and
+                         any(m.get("k") == "bin" and m["op"] in (">", ">=", "<", "<=") for m in walk(x)),
+                         is_target=lambda xr: (strip(xr.get("e")) or {}).get("k") == "int" and strip(xr["e"])["v"] == PD)
+        f_ = None
+        if esc is not None:
+            f_ = Finding(PROP, rid, fn.name, "early data delivered without the limit test",
+                         "%s:%s matrixSslDecodeTls13(): from the branch hsState == WAIT_EOED (line %s) application data is returned "
+                         "(SSL_PROCESS_DATA, line %s) on a path that does not compare tls13ReceivedEarlyDataLen with the limit" % (
+                             fn.relfile, t["ln"], t["ln"], esc[-1][1]), file=fn.relfile, line=t["ln"])
+        res.instance(rid, "matrixSslDecodeTls13:%s WAIT_EOED -> SSL_PROCESS_DATA passes the early-data limit test" % t["ln"], esc is None, finding=f_)
+    if nm == 0:
+        raise AnalysisBroken("C01.R6: no branch on hsState == SSL_HS_TLS_1_3_WAIT_EOED in matrixSslDecodeTls13")
+    res.floor(rid, 2)
